@@ -32,12 +32,21 @@ pub enum Corruption {
     /// notation is then the END OF INPUT, so only the lower bound (not before the comment) and the
     /// consistency clauses apply.
     BreakCommentEnd { at: usize, from: usize },
+    /// TWO stored bytes damaged inside one assignment: the comma at `blank` (between two
+    /// components: the next token is an identifier followed by a type or a tag) overwritten by a
+    /// blank, and the byte at `at`, further on, replaced by `byte`. Without its comma the
+    /// identifier that starts at `next` cannot continue any valid notation, so `next` is the upper
+    /// bound of the reported position — a lexer that is lenient about commas must not report the
+    /// later damage instead.
+    BlankThenReplace { blank: usize, next: usize, at: usize, byte: u8, #[serde(default)] in_default: bool },
 }
 
 impl Corruption {
     fn at(&self) -> usize {
         match self {
             Corruption::Replace { at, .. } | Corruption::SectorZero { at } | Corruption::Truncate { at } | Corruption::TruncateAtBoundary { at } | Corruption::BreakCommentEnd { at, .. } => *at,
+            // the FIRST position that cannot continue valid notation
+            Corruption::BlankThenReplace { next, .. } => *next,
         }
     }
 }
@@ -51,6 +60,36 @@ pub struct Case {
     /// literal (the reported position and path must still be those of the corrupted source)
     #[serde(default)]
     pub pre: u8,
+    /// earlier compilations on the SAME thread, before the judged one (most of them failing):
+    /// (kind, parameter, repetitions) — see `history_source`
+    #[serde(default)]
+    pub hist: Vec<(u8, u32, u32)>,
+}
+
+/// Sources for the history of a thread: earlier operations whose outcome must not influence
+/// where the judged compilation reports its error. kind 0: `param` nested SEQUENCE OF; 1: `param`
+/// nested SEQUENCE { a .. } types; 2: `param` nested CHOICE; 3: the judged text cut after `param`
+/// per mille of its bytes (a syntax error at end of input); 4: a block comment that never ends;
+/// 5: a character string that never ends; 6: garbage after a complete module; 7: `param` open
+/// parentheses in a constraint
+pub fn history_source(kind: u8, param: u32, text: &str) -> String {
+    let d = param as usize;
+    match kind {
+        0 => format!("Hist-A DEFINITIONS ::= BEGIN\nDeep ::= {}INTEGER\nEND\n", "SEQUENCE OF ".repeat(d)),
+        1 => format!("Hist-B DEFINITIONS AUTOMATIC TAGS ::= BEGIN\nDeep ::= {}BOOLEAN{}\nEND\n", "SEQUENCE { a ".repeat(d), " }".repeat(d)),
+        2 => format!("Hist-C DEFINITIONS AUTOMATIC TAGS ::= BEGIN\nDeep ::= {}NULL{}\nEND\n", "CHOICE { a ".repeat(d), " }".repeat(d)),
+        3 => {
+            let mut at = text.len() * (d.min(1000)) / 1000;
+            while !text.is_char_boundary(at) {
+                at -= 1;
+            }
+            text[..at].to_string()
+        }
+        4 => "Hist-E DEFINITIONS ::= BEGIN\nA ::= INTEGER /* never closed\nB ::= BOOLEAN\nEND\n".to_string(),
+        5 => "Hist-F DEFINITIONS ::= BEGIN\nv UTF8String ::= \"never closed\nB ::= BOOLEAN\nEND\n".to_string(),
+        6 => "Hist-G DEFINITIONS ::= BEGIN\nA ::= INTEGER\nEND\n$$$ ???\n".to_string(),
+        _ => format!("Hist-H DEFINITIONS ::= BEGIN\nA ::= INTEGER {}1..5\nEND\n", "(".repeat(d)),
+    }
 }
 
 #[derive(Clone, Debug, Serialize, Deserialize, PartialEq)]
@@ -104,6 +143,10 @@ fn apply(c: &Corruption, text: &str) -> Vec<u8> {
     match c {
         Corruption::Replace { at, byte } => b[*at] = *byte,
         Corruption::BreakCommentEnd { at, .. } => b[*at] = b' ',
+        Corruption::BlankThenReplace { blank, at, byte, .. } => {
+            b[*blank] = b' ';
+            b[*at] = *byte;
+        }
         Corruption::SectorZero { at } => {
             let e = (*at + 512).min(b.len());
             for x in &mut b[*at..e] {
@@ -119,6 +162,8 @@ fn seam_faults(c: &Corruption) -> Vec<Fault> {
     match c {
         Corruption::Replace { at, byte } => vec![Fault { cls: shim::C_READ, ord: 0, kind: shim::F_GARBLE, a: *at as u64, b: *byte as u64 }],
         Corruption::BreakCommentEnd { at, .. } => vec![Fault { cls: shim::C_READ, ord: 0, kind: shim::F_GARBLE, a: *at as u64, b: b' ' as u64 }],
+        // (the blank is already in the stored file; the seam damages the second byte in flight)
+        Corruption::BlankThenReplace { at, byte, .. } => vec![Fault { cls: shim::C_READ, ord: 0, kind: shim::F_GARBLE, a: *at as u64, b: *byte as u64 }],
         Corruption::SectorZero { at } => vec![Fault { cls: shim::C_READ, ord: 0, kind: shim::F_ZERO, a: *at as u64, b: 512 }],
         Corruption::Truncate { at } | Corruption::TruncateAtBoundary { at } if *at >= 1 => vec![
             Fault { cls: shim::C_READ, ord: 0, kind: shim::F_SHORT, a: *at as u64, b: 0 },
@@ -211,25 +256,25 @@ impl Scenario for C17Corrupt {
         if small && strict.len() <= 400 {
             // exhaustive over strict positions; the fault byte and delivery rotate
             for (k, at) in strict.iter().enumerate() {
-                cases.push(Case { c: Corruption::Replace { at: *at, byte: BAD_BYTES[(k + idx as usize) % BAD_BYTES.len()] }, file: k % 3 == 0, ts: k % 7 == 0, pre: 0 });
+                cases.push(Case { c: Corruption::Replace { at: *at, byte: BAD_BYTES[(k + idx as usize) % BAD_BYTES.len()] }, file: k % 3 == 0, ts: k % 7 == 0, pre: 0, hist: vec![] });
             }
         } else {
             for _ in 0..budget {
                 let at = *f.pick(&strict);
-                cases.push(Case { c: Corruption::Replace { at, byte: *f.pick(&BAD_BYTES) }, file: f.chance(1, 3), ts: f.chance(1, 6), pre: 0 });
+                cases.push(Case { c: Corruption::Replace { at, byte: *f.pick(&BAD_BYTES) }, file: f.chance(1, 3), ts: f.chance(1, 6), pre: 0, hist: vec![] });
             }
         }
         // every unit gets at least one corruption at its first and last strict byte
         for u in &units {
             let inside: Vec<usize> = strict.iter().copied().filter(|p| *p >= u.start && *p < u.end).collect();
             if let (Some(a), Some(b)) = (inside.first(), inside.last()) {
-                cases.push(Case { c: Corruption::Replace { at: *a, byte: *f.pick(&BAD_BYTES) }, file: f.chance(1, 2), ts: false, pre: 0 });
-                cases.push(Case { c: Corruption::Replace { at: *b, byte: *f.pick(&BAD_BYTES) }, file: f.chance(1, 2), ts: false, pre: 0 });
+                cases.push(Case { c: Corruption::Replace { at: *a, byte: *f.pick(&BAD_BYTES) }, file: f.chance(1, 2), ts: false, pre: 0, hist: vec![] });
+                cases.push(Case { c: Corruption::Replace { at: *b, byte: *f.pick(&BAD_BYTES) }, file: f.chance(1, 2), ts: false, pre: 0, hist: vec![] });
             }
         }
         for _ in 0..4 {
             let at = *f.pick(&strict);
-            cases.push(Case { c: Corruption::SectorZero { at }, file: f.chance(1, 2), ts: false, pre: 0 });
+            cases.push(Case { c: Corruption::SectorZero { at }, file: f.chance(1, 2), ts: false, pre: 0, hist: vec![] });
             // truncation inside an assignment
             let asg: Vec<&Unit> = units.iter().filter(|u| u.kind == "assignment" && u.end > u.start + 2).collect();
             if !asg.is_empty() {
@@ -238,7 +283,64 @@ impl Scenario for C17Corrupt {
                 while !text.is_char_boundary(at) {
                     at -= 1;
                 }
-                cases.push(Case { c: Corruption::Truncate { at }, file: f.chance(1, 2), ts: false, pre: 0 });
+                cases.push(Case { c: Corruption::Truncate { at }, file: f.chance(1, 2), ts: false, pre: 0, hist: vec![] });
+            }
+        }
+        // two damaged bytes in one assignment: a comma between two components blanked, and a
+        // byte further on replaced
+        {
+            let b = text.as_bytes();
+            let mut cands: Vec<(usize, usize, usize)> = vec![]; // (comma, next token, end of unit)
+            for u in units.iter().filter(|u| u.kind == "assignment") {
+                for c in strict.iter().copied().filter(|c| *c >= u.start && *c < u.end && b[*c] == b',') {
+                    let mut n1 = c + 1;
+                    while n1 < u.end && b[n1].is_ascii_whitespace() {
+                        n1 += 1;
+                    }
+                    if n1 >= u.end || !b[n1].is_ascii_lowercase() || map[n1] != ByteClass::Token {
+                        continue;
+                    }
+                    let mut e = n1;
+                    while e < u.end && (b[e].is_ascii_alphanumeric() || b[e] == b'-') {
+                        e += 1;
+                    }
+                    let mut t = e;
+                    while t < u.end && b[t].is_ascii_whitespace() {
+                        t += 1;
+                    }
+                    if t > e && t < u.end && (b[t].is_ascii_uppercase() || b[t] == b'[') && map[t] == ByteClass::Token {
+                        cands.push((c, n1, u.end));
+                    }
+                }
+            }
+            for _ in 0..6 {
+                if cands.is_empty() {
+                    break;
+                }
+                let (blank, next, end) = *f.pick(&cands);
+                let later: Vec<usize> = strict.iter().copied().filter(|p| *p > next && *p < end).collect();
+                if later.is_empty() {
+                    continue;
+                }
+                let at = *f.pick(&later);
+                // is the second damaged byte part of a DEFAULT value? (known finding, see execute)
+                let in_default = text[next..at].rfind("DEFAULT").is_some_and(|d| {
+                    let mut depth = 0i32;
+                    let mut inside = true;
+                    for ch in text[next + d + 7..at].bytes() {
+                        match ch {
+                            b'{' | b'(' => depth += 1,
+                            b'}' | b')' => depth -= 1,
+                            b',' if depth == 0 => inside = false,
+                            _ => {}
+                        }
+                        if depth < 0 {
+                            inside = false;
+                        }
+                    }
+                    inside
+                });
+                cases.push(Case { c: Corruption::BlankThenReplace { blank, next, at, byte: *f.pick(&BAD_BYTES), in_default }, file: f.chance(1, 3), ts: f.chance(1, 6), pre: 0, hist: vec![] });
             }
         }
         // block comments whose terminator is damaged
@@ -261,7 +363,7 @@ impl Scenario for C17Corrupt {
                     break;
                 }
                 let (e, from) = *f.pick(&ends);
-                cases.push(Case { c: Corruption::BreakCommentEnd { at: e + f.below(2), from }, file: f.chance(1, 2), ts: false, pre: 0 });
+                cases.push(Case { c: Corruption::BreakCommentEnd { at: e + f.below(2), from }, file: f.chance(1, 2), ts: false, pre: 0, hist: vec![] });
             }
         }
         // truncation inside module headers: right after an identifier of the header, the EXPORTS
@@ -278,7 +380,7 @@ impl Scenario for C17Corrupt {
             }).collect();
             let at = if !ends.is_empty() && f.chance(2, 3) { *f.pick(&ends) } else { u.start + 1 + f.below(u.end - u.start - 1) };
             if text.is_char_boundary(at) {
-                cases.push(Case { c: Corruption::TruncateAtBoundary { at }, file: f.chance(1, 2), ts: false, pre: 0 });
+                cases.push(Case { c: Corruption::TruncateAtBoundary { at }, file: f.chance(1, 2), ts: false, pre: 0, hist: vec![] });
             }
         }
         // truncation exactly at unit boundaries: after a complete assignment, after its line break,
@@ -296,7 +398,7 @@ impl Scenario for C17Corrupt {
                 _ => u.start,
             };
             if text.is_char_boundary(at) {
-                cases.push(Case { c: Corruption::TruncateAtBoundary { at }, file: f.chance(1, 2), ts: false, pre: 0 });
+                cases.push(Case { c: Corruption::TruncateAtBoundary { at }, file: f.chance(1, 2), ts: false, pre: 0, hist: vec![] });
             }
         }
         // a third of the corrupted LITERAL sources come after one or two well-formed sources
@@ -304,6 +406,25 @@ impl Scenario for C17Corrupt {
         for c in cases.iter_mut() {
             if !c.file && fp.chance(1, 3) {
                 c.pre = 1 + fp.below(3) as u8;
+            }
+        }
+        // one case in twenty-five runs after a HISTORY of other compilations on the same thread,
+        // most of them failing ones (nesting beyond what a parser may be willing to follow, errors
+        // at end of input, comments and strings that never end), a few of them many times over
+        let mut fh = root.fork("history");
+        for c in cases.iter_mut() {
+            if fh.chance(1, 25) {
+                for _ in 0..(1 + fh.below(2)) {
+                    let kind = fh.below(8) as u8;
+                    let param = match kind {
+                        0..=2 => *fh.pick(&[3u32, 20, 60, 63, 64, 65, 66, 80, 100]),
+                        3 => fh.below(1000) as u32,
+                        7 => *fh.pick(&[1u32, 8, 40, 70]),
+                        _ => 0,
+                    };
+                    let rep = *fh.pick(&[1u32, 1, 1, 2, 3, 9, 70]);
+                    c.hist.push((kind, param, rep));
+                }
             }
         }
         serde_json::to_value(&Plan { seed, set, cases, entropy: root.fork("hashkeys").next_u64() }).unwrap()
@@ -329,7 +450,14 @@ impl Scenario for C17Corrupt {
             let path = format!("{root}/in{ci}.asn1");
             let srcs = if case.file {
                 // the stored file is intact; the seam corrupts the bytes in flight
-                std::fs::write(&path, &text).unwrap();
+                match &case.c {
+                    Corruption::BlankThenReplace { blank, .. } => {
+                        let mut stored = text.clone().into_bytes();
+                        stored[*blank] = b' ';
+                        std::fs::write(&path, &stored).unwrap();
+                    }
+                    _ => std::fs::write(&path, &text).unwrap(),
+                }
                 vec![Src::Path(path.clone())]
             } else {
                 let mut v = vec![];
@@ -351,7 +479,20 @@ impl Scenario for C17Corrupt {
             }
             let be = if case.ts { BackendSel::Ts } else { BackendSel::Rasn(RasnCfg::default_cfg()) };
             let ctx_text = ctext.clone();
+            let history: Vec<(String, u32)> = case.hist.iter().map(|(k, prm, rep)| (history_source(*k, *prm, &text), *rep)).collect();
+            if !history.is_empty() {
+                out.count("delivery.after_a_history_on_the_same_thread", 1);
+                out.count("history_operations", history.iter().map(|h| h.1 as u64).sum());
+            }
+            let hist_be = be.clone();
             let body: sim::Body<(CompileOut, Option<Renderings>)> = Box::new(move || {
+                for (src, rep) in &history {
+                    for _ in 0..*rep {
+                        sim::op_begin("history");
+                        let _ = sut::compile_for_report(&hist_be, &[Src::Literal(src.clone())], src);
+                        sim::op_end("history");
+                    }
+                }
                 sim::op_begin("compile");
                 let r = sut::compile_for_report(&be, &srcs, &ctx_text);
                 sim::op_end("compile");
@@ -372,7 +513,7 @@ impl Scenario for C17Corrupt {
                 continue;
             };
             out.count("corruptions", 1);
-            out.count(&format!("corruption.{}", match case.c { Corruption::Replace { .. } => "replace", Corruption::SectorZero { .. } => "sector_zero", Corruption::Truncate { .. } => "truncate", Corruption::TruncateAtBoundary { .. } => "truncate_at_boundary", Corruption::BreakCommentEnd { .. } => "break_comment_end" }), 1);
+            out.count(&format!("corruption.{}", match case.c { Corruption::Replace { .. } => "replace", Corruption::SectorZero { .. } => "sector_zero", Corruption::Truncate { .. } => "truncate", Corruption::TruncateAtBoundary { .. } => "truncate_at_boundary", Corruption::BreakCommentEnd { .. } => "break_comment_end", Corruption::BlankThenReplace { .. } => "blank_comma_then_replace" }), 1);
             out.count(if case.file { "delivery.file_corrupted_by_seam" } else { "delivery.literal" }, 1);
             if case.file {
                 // the seam must have delivered what `ctext` models: one read of the whole (or truncated) file
@@ -438,6 +579,12 @@ impl Scenario for C17Corrupt {
                 if r.offset < *from {
                     out.violate("not-before-malformed-unit", format!("reported offset {} lies before the unterminated comment that starts at {from}; {ctx}", r.offset));
                 }
+            } else if r.offset > pos && matches!(case.c, Corruption::BlankThenReplace { in_default: true, .. }) {
+                // KNOWN FINDING (known_findings.txt, key lenient-comma-then-damaged-default): the lexer
+                // treats the commas between components as optional, and damage inside a DEFAULT value
+                // is reported where it is — so after a lost comma the report lies beyond the identifier
+                // that could not continue valid notation
+                out.violate("lenient-comma-then-damaged-default", format!("reported offset {} lies after offset {pos}, where a component starts without the comma in front of it; {ctx}", r.offset));
             } else if r.offset > pos {
                 out.violate("not-after-first-bad-byte", format!("reported offset {} lies after the first corrupted byte {pos}; {ctx}", r.offset));
             } else if r.offset < unit.start && !matches!(case.c, Corruption::TruncateAtBoundary { .. }) {
@@ -540,5 +687,31 @@ pub fn show(path: &str) {
     println!("{:?}", out.report);
     if let Some(r) = rend {
         println!("{}\n{}", r.display, r.contextualized);
+    }
+}
+
+/// debugging aid: for run `idx`, print every two-byte corruption whose report lies after the blanked comma
+pub fn show_double(idx: u64) {
+    use crate::core::Scenario;
+    let env = crate::core::Env::detect();
+    let base_seed: u64 = std::env::var("VERIF_SEED").ok().and_then(|s| s.parse().ok()).unwrap_or(1);
+    let seed = crate::core::run_seed(base_seed, &C17Corrupt, idx);
+    let plan = C17Corrupt.plan(seed, idx, Tier::Quick, &env);
+    let p = parse_plan(&plan);
+    let (text, _units) = layout(&p.set);
+    crate::sut::install_panic_hook();
+    for case in &p.cases {
+        if let Corruption::BlankThenReplace { blank, next, at, .. } = &case.c {
+            let ctext = String::from_utf8(apply(&case.c, &text)).unwrap();
+            let be = BackendSel::Rasn(RasnCfg::default_cfg());
+            let (res, _) = sut::compile_for_report(&be, &[Src::Literal(ctext.clone())], &ctext);
+            if let Some(r) = &res.report {
+                if r.offset > *next {
+                    let ls = ctext[..*blank].rfind('\n').map_or(0, |i| i + 1);
+                    let le = ctext[*at..].find('\n').map_or(ctext.len(), |i| *at + i);
+                    println!("idx={idx} blank={blank} next={next} at={at} reported={} reason={:?}\n{}\n----", r.offset, r.reason, ctext[ls..le].replace('\0', "<0>").replace('\u{7}', "<7>").replace('\u{1b}', "<ESC>"));
+                }
+            }
+        }
     }
 }
